@@ -95,9 +95,11 @@ class Splitter:
 
         # Get next mark from iterator
         m = next(self._markiter, None)
-        # Newlines are only counted, not returned (loop, as recursion would overflow on long files)
-        while m is not None and m.group(0) == "\n":
-            self._current_line += 1
+        # Newlines are only counted, not returned (loop, as recursion would overflow on long files);
+        #   delimiters escaped by a backslash are no marks.
+        while m is not None and (m.group(0) == "\n" or self._is_backslash_escaped(m)):
+            if m.group(0) == "\n":
+                self._current_line += 1
             m = next(self._markiter, None)
         if m is not None:
             self._current_char_index = m.start()
@@ -110,6 +112,19 @@ class Splitter:
                     end_index=self._current_char_index,
                 )
         return m
+
+    def _is_backslash_escaped(self, m: re.Match) -> bool:
+        """Whether a delimiter is preceded by an odd number of backslashes.
+
+        An even number of backslashes are escaped backslashes, which escape nothing."""
+        if m.group(0) not in ("{", "}", '"', ",", "="):
+            return False
+        num_backslashes = 0
+        i = m.start() - 1
+        while i >= 0 and self.bibstr[i] == "\\":
+            num_backslashes += 1
+            i -= 1
+        return num_backslashes % 2 == 1
 
     def _move_to_closed_bracket(self) -> int:
         """Index of the curly bracket closing a just opened one."""
@@ -269,7 +284,7 @@ class Splitter:
             The library with the added blocks.
         """
         self._markiter = re.finditer(
-            r"(?<!\\)[\{\}\",=]|\n|@[\w]*( |\t)*(?={)", self.bibstr, re.MULTILINE
+            r"[\{\}\",=]|\n|@[\w]*( |\t)*(?={)", self.bibstr, re.MULTILINE
         )
 
         if library is None:
